@@ -2,16 +2,17 @@
 # usage: tools/try_seed_wt.sh <dir with patch.diff> <property ids...>
 # like try_seed.sh, but the patch is applied in a scratch worktree (GLM_REPO override) so that /repo itself is never modified: for use while seeding sub-agents
 # compile their demonstrations against /repo.  The checks write their evidence / replay as usual; both are restored afterwards.
+V=$(cd "$(dirname "$0")/.." && pwd)
 d=$1; shift
-wt=/tmp/seed/try_$(basename $d)
+wt=/tmp/seed/try_$$_$(basename $d)
 rm -rf $wt; git -C /repo worktree add --detach $wt HEAD >/dev/null 2>&1 || { echo "cannot create worktree"; exit 2; }
 ( cd $wt && git apply "$d/patch.diff" ) || { echo "patch does not apply"; git -C /repo worktree remove --force $wt; exit 2; }
-bk=$(mktemp -d /tmp/seed_evidence.XXXXXX); cp -a /verif/evidence $bk/evidence; cp -a /verif/replay $bk/replay 2>/dev/null
-trap 'git -C /repo worktree remove --force $wt; rm -rf /verif/evidence /verif/replay; cp -a $bk/evidence /verif/evidence; cp -a $bk/replay /verif/replay 2>/dev/null; rm -rf $bk' EXIT INT TERM
-cd /verif
+bk=$(mktemp -d /tmp/seed_evidence.XXXXXX); cp -a $V/evidence $bk/evidence; cp -a $V/replay $bk/replay 2>/dev/null
+trap 'git -C /repo worktree remove --force $wt; rm -rf $V/evidence $V/replay; cp -a $bk/evidence $V/evidence; cp -a $bk/replay $V/replay 2>/dev/null; rm -rf $bk' EXIT INT TERM
+cd $V
 for p in "$@"; do
-  GLM_REPO=$wt ./check $p --tier ${TIER:-quick} > /tmp/seed_check_$p.log 2>&1; rc=$?
-  echo "== $p exit $rc: $(grep -c '^VIOLATION' /tmp/seed_check_$p.log) VIOLATION lines; $(tail -1 /tmp/seed_check_$p.log)"
-  grep -A3 '^VIOLATION' /tmp/seed_check_$p.log | head -${SHOW:-12} | cut -c1-600
-  grep 'ANALYSIS-BROKEN' /tmp/seed_check_$p.log | head -3
+  GLM_REPO=$wt ./check $p --tier ${TIER:-quick} > /tmp/seed_check_$$_$p.log 2>&1; rc=$?
+  echo "== $p exit $rc: $(grep -c '^VIOLATION' /tmp/seed_check_$$_$p.log) VIOLATION lines; $(tail -1 /tmp/seed_check_$$_$p.log)"
+  grep -A3 '^VIOLATION' /tmp/seed_check_$$_$p.log | head -${SHOW:-12} | cut -c1-600
+  grep 'ANALYSIS-BROKEN' /tmp/seed_check_$$_$p.log | head -3
 done
